@@ -6,8 +6,8 @@ import (
 	"github.com/ipfs/ipfs-cluster/api"
 
 	peer "github.com/libp2p/go-libp2p-core/peer"
-	rpc "github.com/libp2p/go-libp2p-gorpc"
 	protocol "github.com/libp2p/go-libp2p-core/protocol"
+	rpc "github.com/libp2p/go-libp2p-gorpc"
 )
 
 // IPFSSvc exposes a model daemon as the "IPFSConnector" RPC service with the
